@@ -5,3 +5,4 @@ pub mod c04;
 pub mod c05;
 pub mod c17;
 pub mod c03;
+pub mod c07;
